@@ -10,7 +10,7 @@ results must be bitwise equal, inside their arguments, and equal to the definiti
 count = #{peaks with |UBI.g - round(UBI.g)|^2 < tol^2}; UB = (sum g h^T)(sum h h^T)^-1; singular -> input unchanged.
 """
 from __future__ import print_function
-import os, sys, random, math
+import os, sys, random, io, contextlib, math
 sys.path.insert(0, os.path.dirname(os.path.dirname(os.path.abspath(__file__))))
 import numpy as np
 from common import runner, enginea, kernels
@@ -86,6 +86,13 @@ class C06(object):
             # the pyf declares score_and_refine / refine_assigned threadsafe (GIL released): other caller threads run
             # the same kernel on their own arguments at the same time
             desc["concurrent"] = [self.draw_case(rnd, ctx, desc["entry"]) for _ in range(rnd.choice([1, 2, 3]))]
+        if desc["entry"] != "refine_assigned" and len(desc["gv"]) and rnd.random() < 0.12:
+            # indexer.getind / indexer.score as scorethem uses them: trial orientation after trial orientation with the
+            # same two work buffers (the same grain found again from another pair of peaks, a twin, something else)
+            desc["getind_seq"] = {"buffers": rnd.choice(["ones", "garbage", "garbage", "none"]), "bseed": rnd.getrandbits(32),
+                                  "trials": [{"which": rnd.choice(["same", "same", "perturbed", "twin", "other"]),
+                                              "tol": rnd.choice([None, None, 0.05, 0.25, 0.5]), "seed": rnd.getrandbits(32)}
+                                             for _ in range(rnd.randint(2, 5))]}
         return desc
 
     def draw_case(self, rnd, ctx, kern):
@@ -95,8 +102,10 @@ class C06(object):
         ubi_true = np.diag(a) @ rot(g).T
         if rnd.random() < 0.4:  # triclinic-ish + strain
             ubi_true = ubi_true @ (np.eye(3) + g.normal(0, 0.02, (3, 3)))
-        sel = rnd.choice(["normal", "normal", "normal", "empty", "one", "two", "coplanar", "collinear"])
+        sel = rnd.choice(["normal", "normal", "normal", "normal", "empty", "one", "two", "coplanar", "collinear", "gv_coplanar"])
         n = rnd.choice([3, 4, 6, 10, 40, 200] + ([2000, 20000] if (ctx.tier == "thorough" and rnd.random() < 0.2) else [1000]))
+        if rnd.random() < 0.04:
+            n = rnd.choice([4095, 4096, 4097, 5000, 8193, 9000])   # beyond the chunk size the OpenMP loops of this file use
         hmax = rnd.choice([3, 8, 30, 1000]) if sel == "normal" else rnd.choice([3, 8])
         hkl = g.integers(-hmax, hmax + 1, (n, 3)).astype(float)
         if sel == "empty":
@@ -117,8 +126,12 @@ class C06(object):
         if sel == "normal" and rnd.random() < 0.5:
             nrand = rnd.choice([1, 5, 50])
             gv = np.vstack([gv, g.normal(0, 0.4, (nrand, 3))])
-        poor = sel == "normal" and rnd.random() < 0.2
+        poor = (sel == "normal" and rnd.random() < 0.2) or sel == "gv_coplanar"
         ubi = ubi_true @ (np.eye(3) + g.normal(0, 0.01 if poor else 1e-4, (3, 3)))
+        if sel == "gv_coplanar":
+            # g-vectors exactly in one plane (a single layer of reciprocal space) while their rounded hkl under this poorly
+            # matching matrix are not: sum h h^T can be inverted, the fitted UB cannot
+            gv[:, rnd.randrange(3)] = 0.0
         if sel == "empty" and n:
             gv = gv + 0.37 * ub[:, 0]  # nothing indexes
         tol = rnd.choice([0.01, 0.05, 0.1, 0.25, 0.5])
@@ -127,7 +140,7 @@ class C06(object):
         if kern == "refine_assigned":
             label = rnd.choice([0, 1, 7])
             labels = np.where(g.random(len(gv)) < rnd.choice([0.0, 0.3, 0.7, 1.0]), label, label + 1 + g.integers(0, 2, len(gv))).astype(np.int32)
-            if sel in ("one", "two", "coplanar", "collinear", "empty"):
+            if sel in ("one", "two", "coplanar", "collinear", "empty", "gv_coplanar"):
                 labels[:] = label if sel != "empty" else label + 1
         gv = np.ascontiguousarray(gv)
         dyadic = sel == "normal" and kern != "refine_assigned" and rnd.random() < 0.12
@@ -155,7 +168,7 @@ class C06(object):
             labels = labels[~tie]
         return {"entry": kern, "ubi": ubi.tolist(), "gv": gv.tolist(), "tol": tol, "sel": sel,
                 "labels": None if labels is None else labels.tolist(), "label": label,
-                "cfg": enginea.draw_cfg(rnd, want_parallel=False), "gstyle": rnd.choice([0, 1])}
+                "cfg": enginea.draw_cfg(rnd, max_team=8), "gstyle": rnd.choice([0, 1])}
 
     def describe(self, desc):
         return {"entry": desc["entry"], "sel": desc["sel"], "tol": desc["tol"], "npeaks": len(desc["gv"]),
@@ -248,8 +261,13 @@ class C06(object):
         nconc = 0
         if viol is None and desc.get("concurrent"):
             viol, nconc = self.exec_concurrent(desc, ctx)
+        ntrials = 0
+        if viol is None and desc.get("getind_seq"):
+            viol, ntrials = self.exec_getind(desc, ctx)
         meas = enginea.run_measures(st0, cfg)
         meas["concurrent_caller_runs"] = 1 if nconc else 0
+        meas["getind_trials_on_shared_buffers"] = ntrials
+        meas["peaks_beyond_one_chunk"] = 1 if n > 4096 else 0
         meas["kernel"] = {kern: 1}
         meas["selection"] = {desc["sel"]: 1}
         meas["peaks_exactly_on_the_tolerance"] = int((ss_all == tol * tol).sum())
@@ -258,6 +276,61 @@ class C06(object):
         return {"digest": dig, "sig": enginea.sha(kern, ubi, gv, tol, desc["labels"], desc["label"]),
                 "nontrivial": nidx > 0, "viol": viol, "measures": meas}
 
+
+    def exec_getind(self, desc, ctx):
+        """indexer.getind(UBI, tol, drlv2tmp, labelstmp) and indexer.score(UBI, tol) for a sequence of trial orientations on
+        one indexer and one pair of work buffers: every answer is the set / number of peaks within tolerance of that
+        orientation alone"""
+        sim = ctx.sim
+        cfg = desc["cfg"]
+        ubi = np.array(desc["ubi"])
+        gv = np.array(desc["gv"], float).reshape(-1, 3)
+        n = len(gv)
+        gs = desc["getind_seq"]
+        enginea.apply_cfg(sim, cfg, strict=0, track_conflicts=0, pct_est=max(50, 40 * n), step_cap=2000000000)
+        sim.begin_run()
+        with contextlib.redirect_stdout(io.StringIO()):
+            ix = self.indexing.indexer(gv=gv, hkl_tol=desc["tol"])
+        gb = np.random.default_rng(gs["bseed"])
+        if gs["buffers"] == "none":
+            b1 = b2 = None
+        elif gs["buffers"] == "ones":
+            b1, b2 = np.ones(n), np.zeros(n, np.int32)
+        else:   # what np.empty may hand out
+            b1, b2 = gb.random(n) * gb.choice([1e-6, 1.0, 1e6]), gb.integers(-3, 4, n).astype(np.int32)
+        for t, tr in enumerate(gs["trials"]):
+            g = np.random.default_rng(tr["seed"])
+            if tr["which"] == "same":
+                U = ubi.copy()
+            elif tr["which"] == "perturbed":
+                U = ubi @ (np.eye(3) + g.normal(0, 2e-3, (3, 3)))
+            elif tr["which"] == "twin":
+                U = np.array([[0, 1, 0], [1, 0, 0], [0, 0, -1.0]]) @ ubi
+            else:
+                U = np.diag(g.uniform(3, 12, 3)) @ rot(g).T
+            U = np.ascontiguousarray(U)
+            tol = tr["tol"]
+            teff = desc["tol"] if tol is None else tol
+            ss = hkl_errors(U, gv)[2]
+            margin = np.abs(ss - teff * teff)
+            if margin.min() <= 1e-12:
+                continue    # a peak exactly on the decision boundary of this trial: ties are not part of the property
+            want = ss < teff * teff
+            with contextlib.redirect_stdout(io.StringIO()):
+                got = np.asarray(ix.getind(U, tol, b1, b2)) if tol is not None or b1 is not None else np.asarray(ix.getind(U))
+                cnt = ix.score(U, tol)
+            if got.shape != want.shape or (got != want).any():
+                k = int(np.argmax(got != want)) if got.shape == want.shape else -1
+                return {"class": "getind-differs", "key": "indexer.getind:getind-differs",
+                        "detail": "trial %d of %d on one indexer (%s orientation, work buffers %s): getind marks %d peaks, %d lie within "
+                                  "the tolerance %g of it (first difference at peak %d, error %.6g)" %
+                                  (t + 1, len(gs["trials"]), tr["which"], gs["buffers"], int(got.sum()), int(want.sum()), teff, k,
+                                   float(np.sqrt(ss[k])) if k >= 0 else -1)}, t + 1
+            if int(cnt) != int(want.sum()):
+                return {"class": "count-differs", "key": "indexer.score:count-differs",
+                        "detail": "indexer.score gives %d for trial %d, %d peaks lie within the tolerance" % (cnt, t + 1, int(want.sum()))}, t + 1
+        v = enginea.viol_from_stats(sim.stats(), "indexer.getind", {})
+        return v, len(gs["trials"])
 
     def _call_spec(self, case):
         kern = case["entry"]
